@@ -1,5 +1,5 @@
 """Registry of the claimed properties: Lean module, correspondence parts, trusted base."""
-from .domains import upcast, bus, store, state, names, resume, conc, durable, locks, shutdown
+from .domains import upcast, bus, store, state, names, resume, conc, durable, locks, shutdown, stress
 
 COMMON_ASSUME = [
     "the hand-written Lean model equals the Go code only on the inputs the correspondence ran (differential testing, reported under coverage)",
@@ -167,6 +167,10 @@ PROPS["C07"]["parts"].append(dict(name="bus07", domain="bus", domain_module="bus
 # C06's "every delivery to an Async handler whose publish context stays live runs exactly once": the sequential machine with
 # mostly Async handlers on persistent buses with a persistence timeout (the goroutines run after the publish has returned)
 PROPS["C06"]["parts"].append(dict(name="bus06", domain="bus", domain_module="bus", gen=bus.make_gen("C06"), n_quick=200, n_thorough=6000, chunk=128))
+
+# real-concurrency judges (witness search inside single API calls, where the controlled scheduler has no yield point)
+for _p, _sc in (("C02", "regs"), ("C04", "once"), ("C06", "waiters"), ("C07", "seq"), ("C03", "waiters")):
+    PROPS[_p]["parts"].append(dict(name="stress" + _p[1:], domain="stress", domain_module="stress", gen=stress.make_gen(_sc), n_quick=4, n_thorough=24, chunk=1, jobs=4))
 
 # C06's Shutdown sentence: model M2s + a timing-based harness (blocked async handlers, context expiry, counting Close)
 PROPS["C06"]["parts"].append(dict(name="shutdown06", domain="shutdown", domain_module="shutdown", gen=shutdown.gen, n_quick=40, n_thorough=1500, chunk=8, jobs=8))
